@@ -251,7 +251,18 @@ def embed_cases(ctx, tier):
             break
         r = rnd.random()
         f = rnd.choice(flags) if rnd.random() < 0.5 else (True, True)
-        if r < 0.5:
+        if r < 0.06:
+            # an ordinary parameter of the inner signature is spelled like a star parameter of the outer one
+            # (start(target, *, args=(), kwargs=None) under spawn(label, *args, **kwargs))
+            o, i = rnd.choice(outers), rnd.choice(inners)
+            stars_o = [p[0] for p in o if p[1] in (VA, VK)]
+            named_i = [k for k, p in enumerate(i) if p[1] not in (VA, VK)]
+            if stars_o and named_i:
+                k_, nm_ = rnd.choice(named_i), rnd.choice(stars_o)
+                if nm_ not in [p[0] for p in i]:
+                    i = tuple(((nm_,) + p[1:]) if j == k_ else p for j, p in enumerate(i))
+            yield (o, i), f
+        elif r < 0.5:
             yield (rnd.choice(outers), rnd.choice(inners)), f
         elif r < 0.75:
             yield (rnd.choice(big_o), rnd.choice(big_i)), f
